@@ -57,7 +57,7 @@ def _compare(chk, cases):
 
 def run(chk):
     common.import_ampycloud()
-    maxlen = 5 if chk.tier == 'quick' else 7
+    maxlen = 5 if chk.size_tier == 'quick' else 7
     chk.rule = (f'all sequences over okta 0..8 of length 0..{maxlen} (exhaustive) + random sequences up to '
                 'length 40 with values in -3..12 and numpy integer element types + all sequences to length 4 with the '
                 'package loggers at DEBUG; non-trivial = length >= 2 '
@@ -76,7 +76,7 @@ def run(chk):
     # random longer ones, other element types
     import numpy as np
     rnd = []
-    n_rand = 3000 if chk.tier == 'quick' else 60000
+    n_rand = 3000 if chk.size_tier == 'quick' else 60000
     for k in range(n_rand):
         L = chk.rng.randint(1, 40)
         lo, hi = chk.rng.choice([(0, 8), (0, 8), (-3, 12), (0, 3), (4, 8)])
